@@ -325,6 +325,16 @@ static Verdict check_huge(const Fields &f) {
     if (rc == 0) { mm.mm.free(&mm.mm, out); return Verdict::fail("huge list: composeQueryMalloc succeeded although the size exceeds INT_MAX", klass); }
   } else if (rc == 0) mm.mm.free(&mm.mm, out);
   if (mm.outstanding() != 0) return Verdict::fail("huge list: blocks outstanding after composeQueryMalloc");
+  // composing straight into a small caller buffer (no size query first): every list here is longer than 8 characters,
+  // so the call must refuse; the buffer is 8 characters flush against a guard page
+  {
+    char *dest = gb().right_chars<char>(8);
+    memset(dest, 0xAA, 8);
+    int cw = -7;
+    rc = uriComposeQueryExA(dest, nodes.data(), 8, &cw, URI_TRUE, nb ? URI_TRUE : URI_FALSE);
+    stats().sub_evaluations++;
+    if (rc == 0) return Verdict::fail("huge list: composing into an 8-character buffer succeeded (worst case " + std::to_string(T) + ")", klass);
+  }
   stats().hit(perItemTooBig ? "huge:item_beyond_limit" : T > INT_MAX ? "huge:sum_beyond_INT_MAX" : "huge:fits");
   stats().nontrivial(f.text(), "huge list n=" + std::to_string(n) + " worst-case=" + std::to_string(T));
   return Verdict::pass();
